@@ -1,5 +1,6 @@
 import Np.Proofs.MapCoef
 import Np.Model.Align
+import Np.Proofs.GradArr
 /-! C04 — alignment changes representation only: property theorems -/
 namespace Np.Props.C04
 open MvPolynomial
@@ -58,6 +59,21 @@ theorem alignExpo_idem (es : List Expo) (p : Poly S) (hes : es.Nodup) :
 /-- `align_shape`: element `i` of the broadcast operand is element `σ i` of the input, for every index map -/
 theorem bcast_denAt {R : Type} [CommSemiring R] {n m : Nat} (σ : Fin n → Fin m) (p : Poly (Vec R m)) (i : Fin n) :
     denAt (mapCoef (Vec.gatherHom σ) p) i = denAt p (σ i) := gather_denAt σ p i
+
+/-! ### aligning any number of operands at once (`alignAll`: what concatenate/stack/gradient use) -/
+section many
+variable {S : Type} [CommSemiring S] [BEq S] [LawfulBEq S]
+
+/-- all outputs share the index-ordered union of the names and one list of exponent rows (same order), are
+well-formed, are as many as the inputs, and output `b` denotes input `b` -/
+theorem alignAll_common (ps : List (Poly S)) (hw : ∀ p ∈ ps, WF p) :
+    (alignAll ps).length = ps.length ∧
+    (∀ q ∈ alignAll ps, q.names = commonNamesAll ps ∧ q.expos = commonExposAll ps ∧ WF q) ∧
+    ∀ (b : Nat) (hb : b < ps.length),
+      den ((alignAll ps)[b]'(by rw [alignAll_length]; exact hb)) = den ps[b] :=
+  ⟨alignAll_length ps, fun q hq => ⟨alignAll_names ps q hq, alignAll_expos ps q hq, alignAll_WF ps hw q hq⟩,
+    fun b hb => den_alignAll ps hw b hb⟩
+end many
 
 /-- non-vacuity: q0·q2² over (q0,q2) aligned to (q0,q1,q2) -/
 example : (alignIndet [0, 1, 2] ({ names := [0, 2], terms := [([1, 2], (5 : Int))] } : Poly Int)).terms = [([1, 0, 2], 5)] := by
